@@ -540,6 +540,9 @@ def run(ctx: Ctx):
               'x = f"{a:{b}} {c!r:>{d}} {e[1:2]} { {1: 2}[1] }"\ny = [*a, *b[1:2]]\ndel a[1:2], b\nz = a[1:2, ::3, b:c]\n']
     # self-documenting f-string fields: the Constant holding the field's text overlaps the field that follows it (CPython's positions) - siblings the search functions must cope with
     progs += ["p = f'\u03c7{\u00e4!r:>{w}}y{b=}' 'z' \"w\"\nq = f'{a = }{b=!r:>5}'\n", "r = f'''{x=}\n{y = :>{w}}'''\n"]
+    # generator expressions as call arguments: alone (shares the call's parentheses), alone but with keywords / ** (cannot share: its parentheses are its own), one of several, doubly parenthesized
+    progs += ['f((x for x in y), k=1)\ncall((i for i in j), **kw)\ng((a for a in b))\nh(x for x in y)\nm((x for x in y), z)\nn(((x for x in y)), k=1)\n',
+              'r = call(\n    (é for é in ü),\n    key=1,\n)\ns = K((i for i in j), *a)\nclass C(B, metaclass=M((t for t in u), v=1)): pass\n']
     run_guarded(ctx, stage_oracle, progs)
     run_guarded(ctx, stage_find_model, progs)
     run_guarded(ctx, stage_find_pairs)
